@@ -1020,7 +1020,10 @@ def task_cb_equivariance(prop, seed):
         pr.have("ensures.second_vector_rotates", z3.And(*[W[1][c] == spec.dot(RM[c], V[1]) for c in range(3)]), by=so3,
                 use=["q1/rotates", "q3/rotates"], backends=("gb",))
         out += pr.obs
-        m = core.get_model(hy, timeout_ms=5000)
+        I3 = spec.ident()
+        hint = [RM[i][j] == I3[i][j] for i in range(3) for j in range(3)] + [TV[k] == 0 for k in range(3)]
+        hint += [PP[0][k] == 0 for k in range(3)] + [PP[1][0] == 0, PP[1][1] == 1, PP[1][2] == 0, PP[2][0] == 1, PP[2][1] == 0, PP[2][2] == 0]
+        m = core.get_model(hy, extra=hint, timeout_ms=10000) or core.get_model(hy, timeout_ms=5000)
         out.append(ob(f"{tag}/{ptag}/guard.path-satisfiable", "discharged" if m is not None else "undecided", kind="guard", engine="symrun",
                       backend="z3", expect="discharged"))
     if n_generic != 1:
